@@ -25,16 +25,17 @@ const (
 
 // Prog is one loaded, type-checked and SSA-built configuration of /repo.
 type Prog struct {
-	Tags    string
-	Fset    *token.FileSet
-	Pkgs    []*packages.Package
-	SSA     *ssa.Program
-	Slog    *ssa.Package
-	Times   *ssa.Package
-	Strs    *ssa.Package
-	byPath  map[string]*ssa.Package
-	canon   map[string]types.Object // canonical anchor key -> renamed object of this tree
-	callers map[*ssa.Function][]ssa.CallInstruction
+	Tags     string
+	Fset     *token.FileSet
+	Pkgs     []*packages.Package
+	SSA      *ssa.Program
+	Slog     *ssa.Package
+	Times    *ssa.Package
+	Strs     *ssa.Package
+	byPath   map[string]*ssa.Package
+	canon    map[string]types.Object // canonical anchor key -> renamed object of this tree
+	callers  map[*ssa.Function][]ssa.CallInstruction
+	skipSite func(ssa.CallInstruction) bool
 
 	cgCHA *callgraph.Graph
 	cgVTA *callgraph.Graph
